@@ -229,7 +229,7 @@ func genAction(t *rapid.T, p *Program, ws []weighted) Action {
 		a.Arg = rapid.IntRange(0, 1).Draw(t, "tailAfter")
 	case "busydisk":
 		a.N = rapid.IntRange(0, 3).Draw(t, "extraInFlight")
-		a.Set = []int{rapid.IntRange(0, 5).Draw(t, "firstCall"), rapid.IntRange(0, 12).Draw(t, "gapMs"), rapid.IntRange(0, 2).Draw(t, "leaves")}
+		a.Set = []int{rapid.IntRange(0, 5).Draw(t, "firstCall"), rapid.IntRange(0, 12).Draw(t, "gapMs"), rapid.IntRange(0, 2).Draw(t, "leaves"), rapid.IntRange(0, 1).Draw(t, "snapshotToo")}
 	case "restoreinflight":
 		a.N = rapid.IntRange(0, 4).Draw(t, "extraInFlight")
 		a.Arg = rapid.IntRange(0, 2).Draw(t, "where")
